@@ -112,3 +112,514 @@ theorem step_decreases (c : Config) (raised : String → Nat → Bool) (st : Run
 
 
 end Logica.Concertina
+
+set_option linter.unusedSimpArgs false
+namespace Logica.Concertina
+
+/-- target number of executions of an iterated action -/
+def target (it : Iteration) : Nat := max it.repetitions 1
+
+theorem mem_insertAt (q : List String) (i : Nat) (a x : String) : x ∈ insertAt q i a ↔ x = a ∨ x ∈ q := by
+  unfold insertAt
+  simp only [List.mem_append, List.mem_singleton]
+  constructor
+  · rintro ((h | h) | h)
+    · exact Or.inr (List.mem_of_mem_take h)
+    · exact Or.inl h
+    · exact Or.inr (List.mem_of_mem_drop h)
+  · rintro (h | h)
+    · exact Or.inl (Or.inr h)
+    · have : x ∈ q.take i ++ q.drop i := by rw [List.take_append_drop]; exact h
+      rcases List.mem_append.mp this with h1 | h1
+      · exact Or.inl (Or.inl h1)
+      · exact Or.inr h1
+
+theorem nodup_insertAt (q : List String) (i : Nat) (a : String) (hq : q.Nodup) (ha : a ∉ q) :
+    (insertAt q i a).Nodup := by
+  unfold insertAt
+  have hperm : (q.take i ++ [a] ++ q.drop i).Perm (a :: (q.take i ++ q.drop i)) := by
+    simp only [List.append_assoc]
+    exact List.perm_middle
+  rw [hperm.nodup_iff, List.take_append_drop]
+  exact List.nodup_cons.mpr ⟨ha, hq⟩
+
+theorem mem_union_right (l : List String) (a x : String) : x ∈ union l [a] ↔ x ∈ l ∨ x = a := by
+  unfold union
+  simp only [List.mem_append, List.mem_filter, List.mem_singleton]
+  constructor
+  · rintro (h | ⟨h, _⟩)
+    · exact Or.inl h
+    · exact Or.inr h
+  · rintro (h | h)
+    · exact Or.inl h
+    · by_cases hm : x ∈ l
+      · exact Or.inl hm
+      · refine Or.inr ⟨h, ?_⟩
+        subst h
+        simpa using hm
+
+end Logica.Concertina
+
+namespace Logica.Concertina
+
+/-- bookkeeping invariant of one action `a` during a run -/
+def ActInv' (c : Config) (a : String) (st : RunState) : Prop :=
+  match c.isIterated a, c.iterationOf a with
+  | true, some it =>
+    st.trace.count a = getCount st.counts a ∧
+    ((a ∈ st.queue ∧ getCount st.counts a < target it ∧ a ∉ st.stopped) ∨
+     (a ∉ st.queue ∧ 1 ≤ getCount st.counts a ∧ getCount st.counts a ≤ target it ∧
+        (a ∈ st.stopped ∨ getCount st.counts a = target it)))
+  | true, none => True
+  | false, _ => (a ∈ st.queue ∧ st.trace.count a = 0) ∨ (a ∉ st.queue ∧ st.trace.count a = 1)
+
+theorem count_snoc (l : List String) (a b : String) :
+    (l ++ [b]).count a = l.count a + (if b = a then 1 else 0) := by
+  rw [List.count_append]
+  by_cases h : b = a <;> simp [h]
+
+/-- one step keeps the queue duplicate-free -/
+theorem step_nodup (c : Config) (raised : String → Nat → Bool) (st : RunState) (hn : st.queue.Nodup) :
+    (step c raised st).queue.Nodup := by
+  cases hq : st.queue with
+  | nil => simp [step, hq]
+  | cons b q =>
+    rw [hq] at hn
+    have hbq : b ∉ q := (List.nodup_cons.mp hn).1
+    have hqn : q.Nodup := (List.nodup_cons.mp hn).2
+    unfold step
+    simp only [hq]
+    split
+    · exact hqn
+    · split
+      · exact hqn
+      · split
+        · exact hqn
+        · split
+          · exact hqn
+          · exact nodup_insertAt q _ b hqn hbq
+
+/-- one step keeps the bookkeeping invariant of every action -/
+theorem step_inv (c : Config) (raised : String → Nat → Bool) (a : String) (st : RunState)
+    (hn : st.queue.Nodup) (hi : ActInv' c a st) : ActInv' c a (step c raised st) := by
+  cases hq : st.queue with
+  | nil => simpa [step, hq] using hi
+  | cons b q =>
+    rw [hq] at hn
+    have hbq : b ∉ q := (List.nodup_cons.mp hn).1
+    by_cases hab : a = b
+    · -- the executed action is `a`
+      subst hab
+      have hain : a ∈ st.queue := by simp [hq]
+      unfold ActInv' at hi ⊢
+      unfold step
+      simp only [hq]
+      cases hit : c.isIterated a with
+      | false =>
+        simp only [hit] at hi ⊢
+        simp only [Bool.not_false, if_true]
+        rcases hi with ⟨_, h0⟩ | ⟨hnq, _⟩
+        · exact Or.inr ⟨hbq, by rw [count_snoc, h0]; simp⟩
+        · exact absurd hain hnq
+      | true =>
+        cases hio : c.iterationOf a with
+        | none => simp [hit, hio]
+        | some it =>
+          simp only [hit, hio] at hi ⊢
+          simp only [Bool.not_true, Bool.false_eq_true, if_false]
+          obtain ⟨htc, hd⟩ := hi
+          rcases hd with ⟨_, hlt, hns⟩ | ⟨hnq, _⟩
+          · have htgt : target it = max it.repetitions 1 := rfl
+            by_cases hge : getCount st.counts a + 1 ≥ it.repetitions
+            · simp only [hge, if_true, getCount_setCount_same]
+              refine ⟨by rw [count_snoc, htc]; simp, Or.inr ⟨hbq, by omega, by omega, Or.inr (by omega)⟩⟩
+            · simp only [hge, if_false]
+              split
+              · simp only [getCount_setCount_same]
+                refine ⟨by rw [count_snoc, htc]; simp, Or.inr ⟨hbq, by omega, by omega, Or.inl ?_⟩⟩
+                exact (mem_union_right _ _ _).mpr (Or.inr rfl)
+              · simp only [getCount_setCount_same]
+                refine ⟨by rw [count_snoc, htc]; simp, Or.inl ⟨?_, by omega, hns⟩⟩
+                exact (mem_insertAt _ _ _ _).mpr (Or.inl rfl)
+          · exact absurd hain hnq
+    · -- another action `b` is executed: nothing about `a` changes
+      have hba : ¬ b = a := fun e => hab e.symm
+      have hmq : a ∈ st.queue ↔ a ∈ q := by simp [hq, hab]
+      unfold ActInv' at hi ⊢
+      unfold step
+      simp only [hq]
+      have hcount : (st.trace ++ [b]).count a = st.trace.count a := by rw [count_snoc]; simp [hba]
+      have hins : ∀ i, a ∈ insertAt q i b ↔ a ∈ q := by
+        intro i; rw [mem_insertAt]; simp [hab]
+      have hstop : a ∈ union st.stopped [b] ↔ a ∈ st.stopped := by
+        rw [mem_union_right]; simp [hab]
+      have hgc : ∀ n, getCount (setCount st.counts b n) a = getCount st.counts a :=
+        fun n => getCount_setCount_other _ _ _ _ hab
+      cases hita : c.isIterated a with
+      | false =>
+        simp only [hita] at hi ⊢
+        rw [hmq] at hi
+        split
+        · simpa [hcount] using hi
+        · split
+          · simpa [hcount] using hi
+          · split
+            · simpa [hcount] using hi
+            · split
+              · simpa [hcount] using hi
+              · simpa [hcount, hins] using hi
+      | true =>
+        cases hioa : c.iterationOf a with
+        | none => simp [hita, hioa]
+        | some it =>
+          simp only [hita, hioa] at hi ⊢
+          rw [hmq] at hi
+          split
+          · simpa [hcount] using hi
+          · split
+            · simpa [hcount, hgc] using hi
+            · split
+              · simpa [hcount, hgc] using hi
+              · split
+                · simpa [hcount, hgc, hstop] using hi
+                · simpa [hcount, hgc, hins] using hi
+
+end Logica.Concertina
+
+namespace Logica.Concertina
+
+theorem runLoop_inv (c : Config) (raised : String → Nat → Bool) (a : String) :
+    ∀ (fuel : Nat) (st : RunState), st.queue.Nodup → ActInv' c a st →
+      (runLoop c raised fuel st).queue.Nodup ∧ ActInv' c a (runLoop c raised fuel st)
+  | 0, st, hn, hi => ⟨hn, hi⟩
+  | fuel + 1, st, hn, hi => by
+    simp only [runLoop]
+    split
+    · exact ⟨hn, hi⟩
+    · exact runLoop_inv c raised a fuel _ (step_nodup c raised st hn) (step_inv c raised a st hn hi)
+
+def initState (order : List String) : RunState :=
+  { queue := order, counts := [], complete := [], stopped := [], wrench := [], trace := [] }
+
+theorem init_inv (c : Config) (order : List String) (a : String) (ha : a ∈ order) :
+    ActInv' c a (initState order) := by
+  unfold ActInv' initState
+  cases c.isIterated a with
+  | false => simp [ha]
+  | true =>
+    cases c.iterationOf a with
+    | none => trivial
+    | some it => simp [ha, getCount, target]; omega
+
+/-- **Execution counts**: when the run is over (queue empty), every scheduled action that is not a member
+of an iteration ran exactly once, and every member of an iteration ran exactly its number of repetitions
+(at least once) — unless its stop signal ended it, and then at least once and at most that often. -/
+theorem execution_counts (c : Config) (raised : String → Nat → Bool) (order : List String) (fuel : Nat)
+    (hn : order.Nodup) (a : String) (ha : a ∈ order)
+    (hdone : (runLoop c raised fuel (initState order)).queue = []) :
+    let fin := runLoop c raised fuel (initState order)
+    (c.isIterated a = false → fin.trace.count a = 1) ∧
+    (∀ it, c.isIterated a = true → c.iterationOf a = some it →
+       1 ≤ fin.trace.count a ∧ fin.trace.count a ≤ max it.repetitions 1 ∧
+       (a ∈ fin.stopped ∨ fin.trace.count a = max it.repetitions 1)) := by
+  intro fin
+  have hinv := (runLoop_inv c raised a fuel (initState order) hn (init_inv c order a ha)).2
+  have hq : a ∉ fin.queue := by
+    show a ∉ (runLoop c raised fuel (initState order)).queue
+    rw [hdone]; simp
+  unfold ActInv' at hinv
+  constructor
+  · intro hf
+    simp only [hf] at hinv
+    rcases hinv with ⟨h, _⟩ | ⟨_, h⟩
+    · exact absurd h hq
+    · exact h
+  · intro it hit hio
+    simp only [hit, hio] at hinv
+    obtain ⟨htc, hd⟩ := hinv
+    rcases hd with ⟨h, _⟩ | ⟨_, h1, h2, h3⟩
+    · exact absurd h hq
+    · show 1 ≤ fin.trace.count a ∧ fin.trace.count a ≤ max it.repetitions 1 ∧ _
+      rw [htc]
+      exact ⟨h1, h2, h3⟩
+
+end Logica.Concertina
+
+namespace Logica.Concertina
+
+/-- every action that is scheduled on its own account (not as a follower inside an iteration) comes after
+all the actions it waits for -/
+def wp (c : Config) (done : List String) : List String → Bool
+  | [] => true
+  | a :: rest => (!isAtaman c a || subset (c.requiresOf a) done) && wp c (done ++ [a]) rest
+
+theorem wp_append (c : Config) : ∀ (l m done : List String),
+    wp c done (l ++ m) = (wp c done l && wp c (done ++ l) m)
+  | [], m, done => by simp [wp]
+  | a :: l, m, done => by
+    simp only [List.cons_append, wp]
+    rw [wp_append c l m (done ++ [a])]
+    simp [Bool.and_assoc]
+
+theorem wp_followers (c : Config) : ∀ (m done : List String), (∀ e ∈ m, isAtaman c e = false) → wp c done m = true
+  | [], _, _ => rfl
+  | a :: m, done, h => by
+    simp only [wp, h a (by simp), Bool.not_false, Bool.true_or, Bool.true_and]
+    exact wp_followers c m _ (fun e he => h e (by simp [he]))
+
+theorem mem_union (a b : List String) (x : String) : x ∈ union a b ↔ x ∈ a ∨ x ∈ b := by
+  unfold union
+  simp only [List.mem_append, List.mem_filter]
+  constructor
+  · rintro (h | ⟨h, _⟩)
+    · exact Or.inl h
+    · exact Or.inr h
+  · rintro (h | h)
+    · exact Or.inl h
+    · by_cases hm : x ∈ a
+      · exact Or.inl hm
+      · exact Or.inr ⟨h, by simpa using hm⟩
+
+theorem mem_diff (a b : List String) (x : String) : x ∈ diff a b ↔ x ∈ a ∧ x ∉ b := by
+  unfold diff
+  simp [List.mem_filter]
+
+theorem subset_iff (a b : List String) : subset a b = true ↔ ∀ x ∈ a, x ∈ b := by
+  unfold subset
+  simp [List.all_eq_true]
+
+theorem subset_congr (a b b' : List String) (h : ∀ x, x ∈ b ↔ x ∈ b') : subset a b = subset a b' := by
+  have : (subset a b = true) ↔ (subset a b' = true) := by
+    rw [subset_iff, subset_iff]
+    constructor
+    · intro hh x hx; exact (h x).mp (hh x hx)
+    · intro hh x hx; exact (h x).mpr (hh x hx)
+  cases h1 : subset a b <;> cases h2 : subset a b' <;> simp_all
+
+/-- iterations do not share members (two iterations naming the same action are the same list) -/
+def WFIter (c : Config) : Prop :=
+  ∀ i1 ∈ c.iterations, ∀ i2 ∈ c.iterations, ∀ e, e ∈ i1.predicates → e ∈ i2.predicates → i1.predicates = i2.predicates
+
+theorem iterationOf_mem (c : Config) (a : String) (it : Iteration) (h : c.iterationOf a = some it) :
+    it ∈ c.iterations ∧ a ∈ it.predicates ∧ a ∈ c.names := by
+  unfold Config.iterationOf at h
+  have hm := List.mem_of_find?_eq_some h
+  have hp := List.find?_some h
+  simp only [Bool.and_eq_true] at hp
+  exact ⟨by simpa using hm, by simpa using hp.1, by simpa using hp.2⟩
+
+theorem follower_not_ataman (c : Config) (hwf : WFIter c) (it : Iteration) (hit : it ∈ c.iterations)
+    (e : String) (he : e ∈ it.predicates) (hn : e ∈ c.names) (hh : it.predicates.head? ≠ some e) :
+    isAtaman c e = false := by
+  unfold isAtaman
+  cases hio : c.iterationOf e with
+  | none =>
+    exfalso
+    unfold Config.iterationOf at hio
+    rw [List.find?_eq_none] at hio
+    have := hio it (by simpa using hit)
+    simp [he, hn] at this
+  | some it' =>
+    obtain ⟨hit', he', _⟩ := iterationOf_mem c e it' hio
+    have := hwf it' hit' it hit e he' he
+    simp only [this]
+    simpa using hh
+
+structure SortInv (c : Config) (st : SortState) : Prop where
+  complete_eq : ∀ x, x ∈ st.complete ↔ x ∈ st.result
+  placed : wp c [] st.result = true
+  names : ∀ x ∈ st.toAssign, x ∈ c.names
+  assigning : ∀ it, st.assigning = some it →
+    it ∈ c.iterations ∧ ∀ h, it.predicates.head? = some h → h ∉ st.toAssign
+
+theorem forEligible_inv (c : Config) : ∀ (el : List String) (st : SortState),
+    (∀ a ∈ el, isAtaman c a = true) → st.assigning = none → SortInv c st → SortInv c (forEligible c el st)
+  | [], st, _, _, hinv => hinv
+  | a :: rest, st, hel, hnone, hinv => by
+    unfold forEligible
+    by_cases hsub : subset (c.requiresOf a) st.complete = true
+    · simp only [hsub, if_true]
+      have hwp : wp c [] (st.result ++ [a]) = true := by
+        rw [wp_append, hinv.placed]
+        simp only [List.nil_append, wp, Bool.and_true, Bool.true_and]
+        rw [subset_congr _ _ _ (fun x => (hinv.complete_eq x).symm), hsub]
+        simp
+      have hce : ∀ x, x ∈ union st.complete [a] ↔ x ∈ st.result ++ [a] := by
+        intro x
+        rw [mem_union, List.mem_append, hinv.complete_eq x]
+      have hnm : ∀ x ∈ diff st.toAssign [a], x ∈ c.names := by
+        intro x hx; exact hinv.names x ((mem_diff _ _ _).mp hx).1
+      cases hio : c.iterationOf a with
+      | none =>
+        simp only
+        refine forEligible_inv c rest _ (fun b hb => hel b (by simp [hb])) (by simpa using hnone) ?_
+        exact ⟨hce, hwp, hnm, fun it h => by simp [hnone] at h⟩
+      | some it =>
+        simp only
+        refine ⟨hce, hwp, hnm, ?_⟩
+        intro it' hit'
+        by_cases hr : (inter it.predicates (diff st.toAssign [a])).isEmpty = true
+        · simp [hr] at hit'
+        · simp only [hr] at hit'
+          have hEq : it = it' := by simpa using hit'
+          subst hEq
+          obtain ⟨hmem, _, _⟩ := iterationOf_mem c a it hio
+          refine ⟨hmem, ?_⟩
+          intro h hh
+          have hat := hel a (by simp)
+          unfold isAtaman at hat
+          simp only [hio] at hat
+          have : it.predicates.head? = some a := by simpa using hat
+          rw [this] at hh
+          cases hh
+          intro hmem'
+          exact ((mem_diff _ _ _).mp hmem').2 (by simp)
+    · simp only [hsub]
+      exact forEligible_inv c rest st (fun b hb => hel b (by simp [hb])) hnone hinv
+
+theorem mem_sortStrings (l : List String) (x : String) : x ∈ sortStrings l ↔ x ∈ l := by
+  have hins : ∀ (a : String) (m : List String), x ∈ insertSorted a m ↔ x = a ∨ x ∈ m := by
+    intro a m
+    induction m with
+    | nil => simp [insertSorted]
+    | cons b m ih =>
+      unfold insertSorted
+      split
+      · simp
+      · simp [ih]; constructor
+        · rintro (h | h | h) <;> simp [h]
+        · rintro (h | h | h) <;> simp [h]
+  induction l with
+  | nil => simp [sortStrings]
+  | cons a l ih =>
+    show x ∈ insertSorted a (sortStrings l) ↔ _
+    have h1 := hins a (sortStrings l)
+    constructor
+    · intro h
+      rcases h1.mp h with h2 | h2
+      · simp [h2]
+      · simp [ih.mp h2]
+    · intro h
+      rcases List.mem_cons.mp h with h2 | h2
+      · exact h1.mpr (Or.inl h2)
+      · exact h1.mpr (Or.inr (ih.mpr h2))
+
+theorem sortLoop_inv (c : Config) (hwf : WFIter c) : ∀ (fuel : Nat) (st : SortState) (order : List String),
+    SortInv c st → sortLoop c fuel st = .ok order → wp c [] order = true
+  | 0, _, _, _, h => by simp [sortLoop] at h
+  | fuel + 1, st, order, hinv, h => by
+    unfold sortLoop at h
+    by_cases hemp : st.toAssign.isEmpty = true
+    · simp only [hemp, if_true, SortResult.ok.injEq] at h
+      rw [← h]; exact hinv.placed
+    · simp only [hemp] at h
+      cases hasg : st.assigning with
+      | some it =>
+        simp only [hasg] at h
+        obtain ⟨hitm, hhead⟩ := hinv.assigning it hasg
+        refine sortLoop_inv c hwf fuel _ order ?_ h
+        have hfol : ∀ e ∈ it.predicates.filter (fun a => st.toAssign.contains a), isAtaman c e = false := by
+          intro e he
+          simp only [List.mem_filter, List.contains_iff_mem] at he
+          apply follower_not_ataman c hwf it hitm e he.1 (hinv.names e he.2)
+          intro hh
+          exact hhead e hh he.2
+        refine ⟨?_, ?_, ?_, ?_⟩
+        · intro x
+          simp only
+          rw [mem_union, List.mem_append, hinv.complete_eq x]
+        · simp only
+          rw [wp_append, hinv.placed, Bool.true_and]
+          exact wp_followers c _ _ hfol
+        · intro x hx
+          exact hinv.names x ((mem_diff _ _ _).mp hx).1
+        · intro it' hh; simp at hh
+      | none =>
+        simp only [hasg] at h
+        by_cases hl : ((forEligible c (sortStrings (List.filter (isAtaman c) st.toAssign)) st).toAssign.length ==
+            st.toAssign.length) = true
+        · simp [hl] at h
+        · simp only [hl] at h
+          refine sortLoop_inv c hwf fuel _ order ?_ h
+          apply forEligible_inv c _ st _ hasg hinv
+          intro a ha
+          rw [mem_sortStrings] at ha
+          exact (List.mem_filter.mp ha).2
+
+/-- **The schedule respects the dependencies**: in the order `SortActions` returns, every action that is
+scheduled on its own account — an action outside iterations or the first member of an iteration — comes after
+every action it requires (after the propagation of `UnderstandIterations`: its own requirements, those of
+its half-iteration, and for a first member the external requirements of all members). -/
+theorem sort_respects_requirements (c : Config) (hwf : WFIter c) (order : List String)
+    (h : sortActions c = .ok order) : wp c [] order = true := by
+  unfold sortActions at h
+  refine sortLoop_inv c hwf _ _ order ?_ h
+  refine ⟨by simp, rfl, ?_, by simp⟩
+  intro x hx
+  have : x ∈ c.names := by
+    have := List.mem_eraseDups.mp hx
+    exact this
+  exact this
+
+end Logica.Concertina
+
+namespace Logica.Concertina
+
+theorem mem_foldl_keep {β : Type} (g : List String → β → List String)
+    (hg : ∀ acc b x, x ∈ acc → x ∈ g acc b) : ∀ (l : List β) (init : List String) (x : String),
+    x ∈ init → x ∈ l.foldl g init
+  | [], _, _, h => h
+  | b :: l, init, x, h => mem_foldl_keep g hg l (g init b) x (hg init b x h)
+
+theorem mem_foldl_step {β : Type} (g : List String → β → List String)
+    (hg : ∀ acc b x, x ∈ acc → x ∈ g acc b) (b : β) (x : String) (hb : ∀ acc, x ∈ g acc b) :
+    ∀ (l : List β) (init : List String), b ∈ l → x ∈ l.foldl g init
+  | y :: l, init, hm => by
+    rcases List.mem_cons.mp hm with h | h
+    · subst h
+      exact mem_foldl_keep g hg l _ x (hb init)
+    · exact mem_foldl_step g hg b x hb l (g init y) h
+
+/-- own requirements are never lost by the propagation -/
+theorem own_requirements_kept (c : Config) (a r : String) (h : r ∈ c.rawRequires a) : r ∈ c.requiresOf a := by
+  unfold Config.requiresOf
+  apply mem_foldl_keep
+  · intro acc it x hx
+    split
+    · exact (mem_union _ _ _).mpr (Or.inl hx)
+    · exact hx
+  · unfold Config.requiresHalf
+    apply mem_foldl_keep
+    · intro acc hh x hx
+      split
+      · exact (mem_union _ _ _).mpr (Or.inl hx)
+      · exact hx
+    · exact h
+
+/-- **The first member of an iteration waits for everything any member needs from outside the iteration**
+(the content of the repair of finding F7). -/
+theorem head_waits_for_members (c : Config) (it : Iteration) (hit : it ∈ c.iterations) (h p r : String)
+    (hh : it.predicates.head? = some h) (hhn : h ∈ c.names)
+    (hp : p ∈ it.predicates) (hpn : p ∈ c.names) (hr : r ∈ c.requiresHalf p) (hout : r ∉ it.predicates) :
+    r ∈ c.requiresOf h := by
+  unfold Config.requiresOf
+  apply mem_foldl_step (b := it)
+  · intro acc it' x hx
+    split
+    · exact (mem_union _ _ _).mpr (Or.inl hx)
+    · exact hx
+  · intro acc
+    have hcond : (it.predicates.head? == some h && c.names.contains h) = true := by
+      simp [hh, hhn]
+    simp only [hcond, if_true]
+    apply (mem_union _ _ _).mpr
+    right
+    apply (mem_diff _ _ _).mpr
+    refine ⟨?_, hout⟩
+    apply mem_foldl_step (g := fun r p => union r (c.requiresHalf p)) (b := p)
+    · intro acc b x hx; exact (mem_union _ _ _).mpr (Or.inl hx)
+    · intro acc; exact (mem_union _ _ _).mpr (Or.inr hr)
+    · simp [List.mem_filter, hp, hpn]
+  · exact hit
+
+end Logica.Concertina
